@@ -256,10 +256,11 @@ def callMethod {V : Type} [Val V] (d : Decl V) (obs : Bool) (act : Action V) (st
     -- `self._raise_if_not_observable()` when the source has it as first statement (the repair of finding F7)
     if counterResetChecksObservable && !obs then (st, .raised .valueError)
     else match st with
-      -- self._value.set(0.0).  Were the literal the int `0` (`resetStoresFloat = false`) the cell would hold a Python
-      -- int — written `Val.ofNat 0`, which no law identifies with the float zero — and later int amounts would be
-      -- added exactly, not in floating point.
-      | some c => (some { c with value := if resetStoresFloat then Val.zero else Val.ofNat 0 }, .ok)
+      -- self._value.set(0.0): the FLOAT zero.  T1 extracts the literal (`Generated.Metrics.resetStoresFloat`); were it the
+      -- int `0`, the cell would hold a Python int and later int amounts would be added exactly, which this float-sum
+      -- model cannot express: every value theorem about counters carries the hypothesis `resetStoresFloat = true`
+      -- (Lemmas.Metrics.counter_value), discharged from the extracted flag in Props.C01.
+      | some c => (some { c with value := Val.zero }, .ok)
       | none => (st, .raised .attributeError)
   -- Gauge (multiprocess_mode 'all': `_is_most_recent` is False)
   | .gauge, .inc amount =>
